@@ -16,9 +16,38 @@ fn on_alloc(size: usize) {
 	TOTAL.fetch_add(size, Relaxed);
 }
 
+// A request of a GiB or more (only a decoder that lets a claimed count drive its allocation makes
+// one) is served as untouched, unreserved address space, so that the run survives to report the
+// input instead of dying in the allocator (x86_64 Linux constants; std already links libc).
+const HUGE: usize = 1 << 30;
+extern "C" {
+	fn mmap(addr: *mut u8, len: usize, prot: i32, flags: i32, fd: i32, off: i64) -> *mut u8;
+	fn munmap(addr: *mut u8, len: usize) -> i32;
+}
+unsafe fn huge_alloc(size: usize) -> *mut u8 {
+	// PROT_READ|PROT_WRITE, MAP_PRIVATE|MAP_ANONYMOUS|MAP_NORESERVE
+	let p = mmap(std::ptr::null_mut(), size, 1 | 2, 0x02 | 0x20 | 0x4000, -1, 0);
+	if p as isize == -1 {
+		std::ptr::null_mut()
+	} else {
+		p
+	}
+}
+
 unsafe impl GlobalAlloc for Counting {
 	unsafe fn alloc(&self, l: Layout) -> *mut u8 {
-		let p = System.alloc(l);
+		let p = if l.size() >= HUGE && l.align() <= 4096 { huge_alloc(l.size()) } else { System.alloc(l) };
+		if !p.is_null() {
+			on_alloc(l.size());
+		}
+		p
+	}
+	unsafe fn alloc_zeroed(&self, l: Layout) -> *mut u8 {
+		if l.size() >= HUGE && l.align() <= 4096 {
+			// fresh anonymous pages read as zero
+			return self.alloc(l);
+		}
+		let p = System.alloc_zeroed(l);
 		if !p.is_null() {
 			on_alloc(l.size());
 		}
@@ -26,9 +55,21 @@ unsafe impl GlobalAlloc for Counting {
 	}
 	unsafe fn dealloc(&self, p: *mut u8, l: Layout) {
 		LIVE.fetch_sub(l.size(), Relaxed);
-		System.dealloc(p, l)
+		if l.size() >= HUGE && l.align() <= 4096 {
+			munmap(p, l.size());
+		} else {
+			System.dealloc(p, l)
+		}
 	}
 	unsafe fn realloc(&self, p: *mut u8, l: Layout, new: usize) -> *mut u8 {
+		if (l.size() >= HUGE || new >= HUGE) && l.align() <= 4096 {
+			let q = self.alloc(Layout::from_size_align_unchecked(new, l.align()));
+			if !q.is_null() {
+				std::ptr::copy_nonoverlapping(p, q, l.size().min(new));
+				self.dealloc(p, l);
+			}
+			return q;
+		}
 		let q = System.realloc(p, l, new);
 		if !q.is_null() {
 			// both blocks may be live while the data is copied
